@@ -775,6 +775,24 @@ func (c GeneratorContext) addLocalVar(name string) (GeneratorContext, error) {
 	return GeneratorContext{am: newAm, cm: c.cm}, nil
 }
 
+// addPushed returns a context in which n additional, unnamed stack slots are in use.
+// The arguments of a call are evaluated one after the other and pushed to the stack.
+// If an argument declares a local variable (let), this variable is stored behind the
+// arguments already pushed, which has to be taken into account when the stack index
+// of the variable is calculated.
+func (c GeneratorContext) addPushed(n int) GeneratorContext {
+	if n == 0 {
+		return c
+	}
+	newAm := make(argsList, len(c.am), len(c.am)+n)
+	copy(newAm, c.am)
+	for i := 0; i < n; i++ {
+		// the name is not a valid identifier, so the slot can not be accessed by name
+		newAm = append(newAm, fmt.Sprintf("\x00pushed%d", len(newAm)))
+	}
+	return GeneratorContext{am: newAm, cm: c.cm}
+}
+
 type Func[V any] func(Stack[V]) (V, error)
 
 func (f Func[V]) Eval(args ...V) (V, error) {
@@ -1130,7 +1148,7 @@ func (g *FunctionGenerator[V]) GenerateFunc(ast parser2.AST, gc GeneratorContext
 				if fun.argsNumberNotMatching(len(a.Args)) {
 					return nil, false, id.Error(fun.argsNumberNotMatchingError(id.Name, len(a.Args)))
 				}
-				argsFuncList, pure, err := g.genFuncList(a.Args, gc)
+				argsFuncList, pure, err := g.genArgList(a.Args, gc, 0)
 				if err != nil {
 					return nil, false, err
 				}
@@ -1150,7 +1168,7 @@ func (g *FunctionGenerator[V]) GenerateFunc(ast parser2.AST, gc GeneratorContext
 		if err != nil {
 			return nil, false, g.generateStaticFunctionDocu(err)
 		}
-		argsFuncList, aPure, err := g.genFuncList(a.Args, gc)
+		argsFuncList, aPure, err := g.genArgList(a.Args, gc, 0)
 		if err != nil {
 			return nil, false, err
 		}
@@ -1181,7 +1199,8 @@ func (g *FunctionGenerator[V]) GenerateFunc(ast parser2.AST, gc GeneratorContext
 			return nil, false, err
 		}
 		name := a.Name
-		argsFuncList, aPure, err := g.genFuncList(a.Args, gc)
+		// the value the method is called on is pushed in front of the arguments
+		argsFuncList, aPure, err := g.genArgList(a.Args, gc, 1)
 		if err != nil {
 			return nil, false, err
 		}
@@ -1198,6 +1217,8 @@ func (g *FunctionGenerator[V]) GenerateFunc(ast parser2.AST, gc GeneratorContext
 						if theFunc.argsNumberNotMatching(len(argsFuncList)) {
 							return zero, a.Error(theFunc.argsNumberNotMatchingError(name, len(argsFuncList)))
 						}
+						// keeps the stack layout the same as in a real method call
+						st.Push(value)
 						for _, argFunc := range argsFuncList {
 							v, err := argFunc(st, cs)
 							if err != nil {
@@ -1294,6 +1315,25 @@ func (g *FunctionGenerator[V]) genFuncList(a []parser2.AST, gc GeneratorContext)
 		var err error
 		var p bool
 		args[i], p, err = g.GenerateFunc(arg, gc)
+		if err != nil {
+			return nil, false, err
+		}
+		pure = pure && p
+	}
+	return args, pure, nil
+}
+
+// genArgList creates the functions to evaluate the arguments of a call. In contrast
+// to genFuncList it takes into account that the arguments are pushed to the stack
+// one after the other: If the n-th argument is evaluated, there are already
+// alreadyPushed+n values on the stack.
+func (g *FunctionGenerator[V]) genArgList(a []parser2.AST, gc GeneratorContext, alreadyPushed int) ([]ParserFunc[V], bool, error) {
+	args := make([]ParserFunc[V], len(a))
+	pure := true
+	for i, arg := range a {
+		var err error
+		var p bool
+		args[i], p, err = g.GenerateFunc(arg, gc.addPushed(alreadyPushed+i))
 		if err != nil {
 			return nil, false, err
 		}
